@@ -55,6 +55,15 @@ CORPUS = [
      {"op": "der", "s": 0, "kind": "Select", "lam": "lambda e: S2", "prebuilt": True},
      {"op": "der", "s": 1, "kind": "Select", "lam": "lambda e: (S2, S3)", "prebuilt": True},
      {"op": "val", "s": 4, "ov": 1, "title": None, "res": ["R", "r1"]}, {"op": "val", "s": 3, "ov": 1, "title": None, "res": ["R", "r1"]}],
+    # the caller hands the SAME lambda tree to operator calls on an untyped and on two typed datasets (F52): the defaults the
+    # follower fills in for one stream must not show up in the others
+    [{"op": "ds", "ty": "Any"}, {"op": "ds", "ty": "Evt"}, {"op": "ds", "ty": "EvtC"},
+     {"op": "der", "s": 0, "kind": "Select", "lam": "lambda e: e.met()", "prebuilt": "shared"},
+     {"op": "der", "s": 1, "kind": "Select", "lam": "lambda e: e.met()", "prebuilt": "shared"},
+     {"op": "der", "s": 2, "kind": "Select", "lam": "lambda e: e.met()", "prebuilt": "shared"},
+     {"op": "der", "s": 0, "kind": "Where", "lam": "lambda e: e.met() > 10", "prebuilt": "shared"},
+     {"op": "der", "s": 2, "kind": "Where", "lam": "lambda e: e.met() > 10", "prebuilt": "shared"},
+     {"op": "val", "s": 3, "ov": None, "title": None, "res": ["R", "r1"]}],
     # QMetaData on the dataset root and on derived streams, then siblings
     [{"op": "ds", "ty": "Evt"}, {"op": "qmd", "s": 0, "kv": [["a", 2]]}, {"op": "qmd", "s": 1, "kv": [["b", 3]]},
      {"op": "der", "s": 2, "kind": "Where", "lam": "lambda e: e.met() > 10"}, {"op": "qmd", "s": 3, "kv": [["a", 3]]},
